@@ -106,8 +106,11 @@ def make_pool():
         v = V1
         d = Derived
         ints = ArrInt
+    # a type that already carries database column options (they live in one dict per type)
+    Name = Unicode(64, server_default='n/a')
+    NameIdx = Name(index=True)
     return dict(Int10=Int10, Str5=Str5, Base=Base, Derived=Derived, Arr=Arr, ArrInt=ArrInt, V1=V1, V2=V2,
-                Pending=Pending, Pending2=Pending2, Holder=Holder, Integer=Integer, Unicode=Unicode)
+                Pending=Pending, Pending2=Pending2, Holder=Holder, Integer=Integer, Unicode=Unicode, Name=Name, NameIdx=NameIdx)
 
 
 PROBES = [None, -1, 0, 5, 10, 11, 10 ** 12, '', 'abc', 'abcdef']
@@ -160,7 +163,7 @@ OPS = ['prim_call', 'simple_customize', 'complex_customize', 'child_attrs', 'chi
        'array_wrap', 'mandatory_array', 'mandatory_complex', 'mandatory_simple', 'subclass', 'append_field',
        'insert_field', 'append_pending_field', 'append_to_derived_parent', 'variant_child_attrs_future',
        'insert_pending_field', 'array_wrap_variant', 'array_wrap_simple_variant', 'iterable_wrap_variant',
-       'array_wrap_with_item_attrs']
+       'array_wrap_with_item_attrs', 'column_option_pk', 'column_option_server_default']
 
 
 def apply_op(c, op, pool, step):
@@ -192,6 +195,10 @@ def apply_op(c, op, pool, step):
         out = c.run(Iterable, P['V2'])
     elif op == 'array_wrap_with_item_attrs':
         out = c.run(P['ArrInt'].customize, serializer_attrs=dict(le=99))
+    elif op == 'column_option_pk':
+        out = c.run(P['Name'], pk=True)
+    elif op == 'column_option_server_default':
+        out = c.run(P['NameIdx'].customize, server_default='other', unique=True)
     elif op == 'mandatory_array':
         out = c.run(Mandatory, P['ArrInt'])
     elif op == 'mandatory_complex':
@@ -409,3 +416,43 @@ def _mk_order(case):
 
 for _c in ORDER_CASES:
     _mk_order(_c)
+
+
+@obligation('C15.field_order.mixin', targets=['spyne.model.complex:_get_type_info', 'spyne.model.complex:ComplexModelMeta.__new__'],
+            bounded="one and two mixin parents with 3 and 2 fields, with and without an ordinary base class; class, customised "
+                    "variant and subclass",
+            desc="fields that come from a mixin parent (__mixin__ = True) keep their declaration order and precede the "
+                 "class's own fields (parents first); ordinary base classes come before mixins; variants and subclasses "
+                 "see the same order")
+def field_order_mixin(c):
+    how = c.choose(['one_mixin', 'two_mixins', 'base_and_mixin'], 'parents')
+    Meta = type(ComplexModel)
+    out1 = c.run(Meta, 'Audit', (ComplexModel,), {'__namespace__': TNS, '__mixin__': True,
+                                                  '_type_info': [('created_by', Unicode), ('created_at', Date), ('revision', Integer)]})
+    out2 = c.run(Meta, 'Tagged', (ComplexModel,), {'__namespace__': TNS, '__mixin__': True,
+                                                   '_type_info': [('tag', Unicode), ('weight', Integer)]})
+    c.check('mixins_declared', out1.returned and out2.returned, detail=(repr(out1), repr(out2)))
+    if not (out1.returned and out2.returned):
+        return
+    Audit, Tagged = out1.value, out2.value
+
+    class Plain(ComplexModel):
+        __namespace__ = TNS
+        p1 = Integer
+        p2 = Unicode
+    parents = {'one_mixin': (Audit,), 'two_mixins': (Audit, Tagged), 'base_and_mixin': (Plain, Audit)}[how]
+    out = c.run(Meta, 'Invoice', parents, {'__namespace__': TNS, '_type_info': [('number', Integer), ('total', Decimal)]})
+    c.check('class_created', out.returned, detail=repr(out))
+    if not out.returned:
+        return
+    K = out.value
+    audit, tagged, plain, own = ['created_by', 'created_at', 'revision'], ['tag', 'weight'], ['p1', 'p2'], ['number', 'total']
+    want = {'one_mixin': audit + own, 'two_mixins': audit + tagged + own, 'base_and_mixin': plain + audit + own}[how]
+    got = list(K.get_flat_type_info(K).keys())
+    c.check('parents_first_in_declaration_order', got == want, detail=(got, want))
+    v = c.run(K.customize, min_occurs=1)
+    c.check('variant_follows', v.returned and list(v.value.get_flat_type_info(v.value).keys()) == want,
+            detail=v.returned and list(v.value.get_flat_type_info(v.value).keys()))
+    s_ = c.run(Meta, 'Sub', (K,), {'__namespace__': TNS, 'extra': Integer})
+    c.check('subclass_follows', s_.returned and list(s_.value.get_flat_type_info(s_.value).keys()) == want + ['extra'],
+            detail=s_.returned and list(s_.value.get_flat_type_info(s_.value).keys()))
